@@ -394,7 +394,7 @@ class An:
                         ok = True
                     if not ok:
                         continue
-                    dom = self.cfg.point_dominates(s, point) and s != point
+                    dom = self._writer_dominates(s, point)
                     ws.extend(self.writer_desc(l, s, dom))
                 if ws:
                     base = ('mem', l, base, tuple(ws), ())
@@ -402,6 +402,9 @@ class An:
             self._inprog.discard(gkey)
         self._val_memo[key] = base
         return base
+
+    def _writer_dominates(self, s, point):
+        return self.cfg.point_dominates(s, point) and s != point
 
     def _reaches_point(self, s, point):
         """writer site s can execute before point"""
@@ -622,6 +625,59 @@ class An:
         if len(vals) == 1:
             return vals[0]
         return ('phi', tuple((('ret', i), v) for i, v in enumerate(vals)))
+
+
+class PathAn(An):
+    """the same analysis restricted to one acyclic block path (path-sensitive values)"""
+
+    def __init__(self, base, path):
+        self.body = base.body
+        self.facts = base.facts
+        self.cfg = base.cfg
+        self.nblocks = base.nblocks
+        self.defs = base.defs
+        self.partial = base.partial
+        self.deref_stores = base.deref_stores
+        self.rin = base.rin
+        self._roots_memo = base._roots_memo
+        self._writers = base.writer_sites()
+        self._val_memo = {}
+        self._inprog = set()
+        self.path = list(path)
+        self.pos = {b: i for i, b in enumerate(self.path)}
+
+    def _before(self, s, point):
+        (a, i), (b, j) = s, point
+        if a not in self.pos or b not in self.pos:
+            return False
+        if a == b:
+            return i < j
+        return self.pos[a] < self.pos[b]
+
+    def reaching(self, l, point):
+        best = None
+        for s in self.defs.get(l, []):
+            if self._before(s, point):
+                if best is None or self._before(best, s):
+                    best = s
+        if best is not None:
+            return frozenset([best])
+        if 1 <= l <= self.body.arg_count:
+            return frozenset(['entry'])
+        return frozenset()
+
+    def _reaches_point(self, s, point):
+        return self._before(s, point)
+
+    def _site_reaches(self, d, s):
+        return self._before(d, s)
+
+    def _writer_dominates(self, s, point):
+        return self._before(s, point)
+
+    def ret_val(self):
+        last = self.path[-1]
+        return self.val_local(0, self.term_point(last))
 
 
 def get_an(facts, key):
